@@ -176,8 +176,7 @@ Qed.
 
 (* ---- Boolean values -------------------------------------------------------------------- *)
 Definition bval (c : circuit) (a : assignment) (l : label) (b : bool) : Prop := (Eval c a l (inj b)).
-Definition bvals (c : circuit) (a : assignment) (ls : list label) (bs : list bool) : Prop :=
-  Forall2 (bval c a) ls bs.
+Notation bvals c a := (Forall2 (bval c a)).
 
 Lemma inj_inj b b' : inj b = inj b' -> b = b'.
 Proof. destruct b, b'; simpl; congruence. Qed.
